@@ -94,7 +94,7 @@ PROPS.update({
     "C08": {
         "title": "Hook protocol: finish once and last; a hook error aborts the diff unchanged",
         "module": "SimilarVerif.Props.C08",
-        "suites": ["stacks", "deadline"],
+        "suites": ["stacks", "deadline", "api"],
         "rule": "stacks: all pairs up to length 3 (thorough 5) over 2 symbols + random pairs x 3 algorithms x 6 adapter stacks (none, &mut, NoFinish, Replace, Compact, Compact+Replace) x hook with/without replace override x every failing call index k; non-trivial = more than 2 calls",
         "theorem_status": "full: abort-prefix theorem for every algorithm x {none, NoFinish, Replace, Compact, Compact+Replace} x every k and both replace modes; finish once and last follows from C01's validity (LCS and Myers full, Patience whenever it returns); NoFinish forwarding and default replace by definition",
         "level_text": "Lean theorem: the run against a hook failing at call k is exactly the k+1-prefix of the never-failing run, returns that error, for all inputs (simulation proof over every hook-generic model function); the correspondence exercises every k on the real code.",
